@@ -153,6 +153,23 @@ func genBatchWalk(r *rand.Rand, n int) []Step {
 				Step{"a": "swapIn", "u": "u2", "p": float64(3), "din": "uusdt", "sz": "s2", "limit": pick(r, "tight", "plus01")}, Step{"a": "block", "dt": float64(5)})
 		}
 	}
+	if genIndex%6 == 5 {
+		// scripted corner: a two-hop exact-in request with a tight minimum shares a block with (first) a big trade on its SECOND hop's
+		// pool in the same direction - so it will miss its minimum on hop 2 - and with a request in the OPPOSITE direction on its
+		// first hop's pool, placed before it: the end blocker tries the two as a pair, one succeeds, the other fails half way
+		for k := 0; k < 2; k++ {
+			if r.Intn(2) == 0 {
+				st = append(st, Step{"a": "swapIn", "u": "u1", "p": float64(2), "din": "uusdc", "sz": pick(r, "s3", "20%"), "limit": "loose"},
+					Step{"a": "swapIn", "u": "u3", "p": float64(1), "din": "uusdc", "sz": pick(r, "s2", "s3"), "limit": "loose"},
+					Step{"a": "swapIn", "u": "u2", "route": []any{float64(1), float64(2)}, "din": "uatom", "sz": pick(r, "s1", "s2"), "limit": "tight", "rcpt": pick(r, "", "u4")})
+			} else {
+				st = append(st, Step{"a": "swapIn", "u": "u1", "p": float64(1), "din": "uusdc", "sz": pick(r, "s3", "20%"), "limit": "loose"},
+					Step{"a": "swapIn", "u": "u3", "p": float64(2), "din": "uusdc", "sz": pick(r, "s2", "s3"), "limit": "loose"},
+					Step{"a": "swapIn", "u": "u2", "route": []any{float64(2), float64(1)}, "din": "uelys", "sz": pick(r, "s1", "s2"), "limit": "tight", "rcpt": pick(r, "", "u4")})
+			}
+			st = append(st, Step{"a": "block", "dt": float64(5)})
+		}
+	}
 	for len(st) < n {
 		k := 2 + r.Intn(5)
 		for i := 0; i < k; i++ {
